@@ -30,6 +30,13 @@ func init() {
 	})
 }
 
+type c01Kept struct {
+	rec *gen.GBRecord
+	got poly.Sequence
+}
+
+var c01Earlier []c01Kept
+
 var boundaryLens = []int{1, 9, 10, 11, 59, 60, 61, 99, 100, 101, 999, 1000, 1001, 2, 12, 120, 121}
 
 func c01SeqLen(w *mon.W, r interface{ Intn(int) int }, k int) int {
@@ -193,6 +200,19 @@ func runC01(w *mon.W) {
 			w.End()
 			continue
 		}
+		// results returned for earlier files must not change when later files are parsed
+		for _, e := range c01Earlier {
+			w.Add("earlier_results_rechecked", 1)
+			if d := compareGB(e.rec, e.got); len(d) > 0 {
+				w.Violation(id, "a result returned by an earlier genbank parse call changed after later calls: "+joinDiffs(d, 3), rep)
+				c01Earlier = nil
+				break
+			}
+		}
+		if len(c01Earlier) >= 3 {
+			c01Earlier = c01Earlier[1:]
+		}
+		c01Earlier = append(c01Earlier, c01Kept{recs[0], got[0]})
 		for i, rec := range recs {
 			w.Add("records_compared", 1)
 			if d := compareGB(rec, got[i]); len(d) > 0 {
